@@ -199,6 +199,8 @@ def sample_config(rng, family=None, families=None, n_range=(2, 14), d_range=(1, 
     cfg = dict(family=family, params=p, n=n, d=d, data_seed=rng.randrange(2 ** 31), data_scale=choice(rng, list(scales)))
     if big:
         cfg["big"] = True
+    if rng.random() < 0.08 and n >= 2:
+        cfg["data_kind"] = "duplicates"
     if uses_precomputed(cfg):
         if gemini_ref_spec(cfg)[0] == "mmd":
             cfg["affinity_src"] = choice(rng, ["linear", "rbf", "polynomial", "laplacian"])
@@ -235,6 +237,11 @@ def make_data(config, which=0):
     if config.get("data_kind") == "blobs":
         centers = rs.normal(size=(3, d)) * 3
         X = X * 0.5 + centers[rs.randint(3, size=n)]
+    if config.get("data_kind") == "duplicates" and n >= 2:
+        # exactly identical rows (low-cardinality data, repeated measurements): two samples, one feature vector
+        for _ in range(max(1, n // 4)):
+            i, j = rs.randint(n), rs.randint(n)
+            X[i] = X[j]
     return X
 
 
@@ -248,7 +255,15 @@ def make_affinity(config, X):
         A = pairwise_kernels(X, metric=src)
     else:
         A = pairwise_distances(X, metric=src)
-    return np.ascontiguousarray((A + A.T) / 2)
+    A = (A + A.T) / 2
+    if config.get("data_kind") == "duplicates":
+        # a user-supplied matrix may distinguish samples that share a feature vector
+        rs = np.random.RandomState(config["data_seed"] % (2 ** 31) ^ 0x0D0B)
+        S = rs.normal(size=A.shape) * 1e-3
+        S = (S + S.T) / 2
+        np.fill_diagonal(S, 0.0)
+        A = A + S
+    return np.ascontiguousarray(A)
 
 
 class SimKernel:
